@@ -41,8 +41,9 @@ type Job struct {
 	Routes       []RoutesJob `json:"routes"` // routes generations
 	Runs         int         `json:"runs"`   // C19: extra Run() calls on the same pipeline, each compared with the first
 	Timeout      int         `json:"timeout_s"`
-	KeepGoin     bool        `json:"keep_going"`    // generate artifacts even when validation reported errors (never used for acceptance)
-	ValidateOnly bool        `json:"validate_only"` // stop after Validate (no intermediate metadata, no artifacts)
+	KeepGoin     bool        `json:"keep_going"`          // generate artifacts even when validation reported errors (never used for acceptance)
+	Histories    [][]string  `json:"histories,omitempty"` // C19: operation histories, each on its own fresh pipeline value
+	ValidateOnly bool        `json:"validate_only"`       // stop after Validate (no intermediate metadata, no artifacts)
 }
 
 type Diag struct {
@@ -79,6 +80,7 @@ type Result struct {
 	Controllers int                 `json:"controllers"`
 	RouteCount  int                 `json:"route_count"`
 	RunDiffs    []string            `json:"run_diffs,omitempty"`
+	Histories   []HistResult        `json:"histories,omitempty"`
 	Crashed     string              `json:"crashed,omitempty"` // worker process died / timed out (set by the parent)
 	WallMs      int64               `json:"wall_ms"`
 }
@@ -201,6 +203,12 @@ func runJob(job Job) *Result {
 		}
 		cfg = c
 	}) || res.ConfigErr != "" {
+		return res
+	}
+	if len(job.Histories) > 0 {
+		for _, h := range job.Histories {
+			res.Histories = append(res.Histories, runHistory(cfg, h))
+		}
 		return res
 	}
 	var pipe pipeline.GleecePipeline
